@@ -639,8 +639,10 @@ int ref_expect_handler(int evt, int kind, int cmd, const uint8_t *data, size_t s
                         VIOL(P_C06 | P_C10 | P_C07 | P_C08 | P_C19 | P_C11 | P_C12 | P_C03, "C06/C10: %s handler of '%s' (%s machine, invocation %d) did not receive the freshly formatted text "
                              "(got %zu bytes '%.*s', expected %d bytes '%.*s')", kind_name(kind), W.cmd[cmd].name, evt ? "event" : "command", r->inv + 1,
                              size, (int)(size < 60 ? size : 60), (const char *)data, r->text_len, r->text_len, (const char *)r->text);
+                /* told more than there is: a handler that keeps within what it is told writes into whatever lies behind the buffer
+                 * (the other machine's text), so every property about the output is at stake; told less: only C06's statement */
                 if ((int)max != RCAP(evt))
-                        VIOL(P_C06 | P_C03, "C06: %s handler of '%s' told max_data_size=%zu, the buffer holds %d", kind_name(kind), W.cmd[cmd].name, max, RCAP(evt));
+                        VIOL((int)max > RCAP(evt) ? (P_C06 | P_C03 | P_C10 | P_C11 | P_C13 | P_C12 | P_C19) : (P_C06 | P_C03), "C06: %s handler of '%s' told max_data_size=%zu, the buffer holds %d", kind_name(kind), W.cmd[cmd].name, max, RCAP(evt));
         }
         r->inv++;
         *nonterm_left = r->nonterm_left;
